@@ -158,7 +158,7 @@ func TestC13_AuthorizeValidation(t *testing.T) {
 					objOK = h.No
 				}
 			}
-			via := rapid.SampledFrom([]string{"request", "request", "request_uri-registered", "request_uri-unregistered"}).Draw(rt, "via")
+			via := rapid.SampledFrom([]string{"request", "request", "request_uri-registered", "request_uri-unregistered", "request_uri-near-miss"}).Draw(rt, "via")
 			switch via {
 			case "request":
 				q.Set("request", obj)
@@ -169,6 +169,13 @@ func TestC13_AuthorizeValidation(t *testing.T) {
 				w.Docs["https://evil.example/request.jwt"] = obj
 				q.Set("request_uri", "https://evil.example/request.jwt")
 				objOK = h.No
+			case "request_uri-near-miss":
+				// pre-registration is by exact string: a look-alike of the registered URI is not registered
+				u := rapid.SampledFrom([]string{"https://rp.example/REQUEST.jwt", "https://rp.example/Request.JWT", "https://RP.example/request.jwt", "https://rp.example/request.jwt?v=2", "https://rp.example/request.jwt/", "https://rp.example/request.jwt.evil", "https://rp.example/request.jw", "https://rp.example//request.jwt"}).Draw(rt, "nearMissURI")
+				w.Docs[u] = obj
+				q.Set("request_uri", u)
+				objOK = h.No
+				h.Label("request_uri-near-miss")
 			}
 			objKind += "/" + via
 		}
@@ -268,6 +275,37 @@ func TestC13_AuthorizeValidation(t *testing.T) {
 		if redirected && !usedObject && objState == "" {
 			if res.State != state {
 				h.Violate(rt, "C13/state-not-echoed", "state sent %q, echoed %q (mode %s)\n%s", state, res.State, res.Mode, desc)
+			}
+		}
+		// the same rule through a pushed authorization request: the state that was validated (and is echoed) is the
+		// pushed one, whatever travels next to the request_uri on the front channel
+		if clientID == "c13" && rapid.IntRange(0, 3).Draw(rt, "viaPAR") == 0 {
+			pushState := rapid.SampledFrom(c13States).Draw(rt, "pushedState")
+			pf := url.Values{"client_id": {"c13"}, "response_type": {"code"}, "redirect_uri": {redirectURI}, "scope": {"a"}}
+			if pushState != "" {
+				pf.Set("state", pushState)
+			}
+			pauth := w.BasicFor("c13")
+			if cl.Public {
+				pauth = h.Auth{}
+			}
+			pr := w.PAR(pf, pauth)
+			effPush := strings.TrimSpace(pushState)
+			_ = effPush
+			if pr.RequestURI != "" {
+				h.Label("par-push-accepted")
+				if len(pushState) < minLen {
+					h.Violate(rt, "C13/accepted-invalid-request", "the push endpoint accepted a state of %d characters (minimum %d): %q", len(pushState), minLen, pushState)
+				}
+				front := rapid.SampledFrom([]string{"", "x", "front-channel-state-0123456789"}).Draw(rt, "frontChannelState")
+				uq := url.Values{"client_id": {"c13"}, "request_uri": {pr.RequestURI}}
+				if front != "" {
+					uq.Set("state", front)
+				}
+				r2 := w.Authorize(uq, h.Consent{})
+				if (r2.Location != "" || r2.Mode == "form_post") && r2.State != pushState {
+					h.Violate(rt, "C13/state-not-echoed", "state pushed %q, front channel sent %q, response echoes %q (%v)", pushState, front, r2.State, r2.Err)
+				}
 			}
 		}
 		// a client lacking authorization_code can never turn a code into tokens
